@@ -257,7 +257,6 @@ func SelfCheck() error {
 		{68, 34, "28453041475240576740"},            // first above 2^64
 		{100, 50, "100891344545564193334812497256"}, // published
 		{4000000, 3, "10666658666668000000"},
-		{80, 19, "2044802197953900"},
 		{1 << 32, 2, "9223372034707292160"},
 	}
 	for _, p := range pub {
